@@ -111,6 +111,35 @@ Theorem C07_statement_partial : forall p, wf_proto p = true -> C07_consequences 
 Proof. exact C07_statement_partial_lemma. Qed.
 Print Assumptions C07_statement_partial.
 
+(* 6b. Register-form string keys (wave 5; VM/StrKey.v). OP_SELF / OP_GETTABLEKS whose key constant is
+      not RK-encodable (index > 255) take the key from a register through L.rkString, a Go type
+      assertion `.(LString)`. strreg_fn (evaluated on every dumped tree next to wf_proto: check_spec
+      = wfx_proto) demands that the word in front is LOADK of a string constant into that very
+      register and that the instruction is no jump/skip target. Proved for all runs of the
+      skeleton, whatever the data does: such an instruction is never the entry, every run that
+      reaches it comes from that LOADK and from nowhere else. (OP_SETTABLEKS in register form is NOT
+      covered: its key is loaded before the value expression is evaluated.) *)
+From GL Require Import VM.StrKey VM.StrKeyFacts.
+
+Theorem regkey_fed : forall f pc w r,
+  strreg_fn f = true -> pc_ok f pc -> zth (f_code f) pc = Some w -> regkey_of w = Some r ->
+  fed_by_loadk f pc r /\
+  (forall q i, pc_ok f q -> sk_step f q = Some i -> In pc (i_succ i) -> q = pc - 1).
+Proof. exact regkey_fed_lemma. Qed.
+Print Assumptions regkey_fed.
+
+Theorem regkey_run : forall f pc w r,
+  wf_fn f = true -> strreg_fn f = true ->
+  reach f 0 pc -> zth (f_code f) pc = Some w -> regkey_of w = Some r ->
+  1 <= pc /\ fed_by_loadk f pc r /\
+  (forall q i, reach f 0 q -> sk_step f q = Some i -> In pc (i_succ i) -> q = pc - 1).
+Proof. exact regkey_run_lemma. Qed.
+Print Assumptions regkey_run.
+
+Theorem strreg_proto_all : forall p, strreg_proto p = true -> forall q, In q (flatten p) -> strreg_fn (view q) = true.
+Proof. exact StrKeyFacts.strreg_proto_all. Qed.
+Print Assumptions strreg_proto_all.
+
 (* ---------------------------------------------------------------------------------------------
    7. Run level, on the FULL VM model (coq/VMX: the transcription of _vm.go/_state.go that C01-C03
       tie to the real VM by differential runs), not on the skeleton. "Out of range" = the model
@@ -125,6 +154,43 @@ Print Assumptions C07_statement_partial.
       RunSafe.wf_run_noob_statement. See notes/VMX.md. *)
 From GL Require Import VMX.Machine VMX.Step VMX.VRun VMX.WfTie VMX.RunSafe.
 From GL Require VMX.WfTieFacts VMX.RunSafeFacts VMX.HeapSafeFacts.
+
+(* 6c. The same on the full VM model: the read-before-write order of the string-keyed handlers, on
+      which compile.go relies when it loads the key of `tmp:method()` into R(A+1) - a register
+      OP_SELF itself overwrites. On a prototype accepted by strreg_fn, once the model has executed
+      the LOADK in front, rkString on the key register returns that string constant (the model's
+      fault 108 "rkString on a non-string" is excluded at this read) and the instruction equals the
+      handler with the constant as its key: nothing is written before the key is read. The tie of
+      this order to vm.go is by execution: harness/cmd/c07 runs temporaries as receivers with the
+      method name above the RK range (rk_self_* ladders) and every generated program with its
+      constants shifted above the RK range (twin.go); the differential runs of C01-C03 tie VMX. *)
+From GL Require VM.StrKeyVmx.
+
+Theorem regkey_reads_constant : forall ml gf cl pc w r,
+  strreg_fn (WfTieFacts.fn_of (cl_proto cl)) = true ->
+  pc_ok (WfTieFacts.fn_of (cl_proto cl)) pc ->
+  zth (xp_code (cl_proto cl)) pc = Some w -> regkey_of w = Some r ->
+  exists w1 str,
+    zth (xp_code (cl_proto cl)) (pc - 1) = Some w1 /\
+    op_of_code (opGetOpCode w1) = Some OP_LOADK /\ opGetArgA w1 = r /\
+    zth (xp_consts (cl_proto cl)) (opGetArgBx w1) = Some (Values.VStr str) /\
+    forall cf cf' base s b s1,
+      0 <= fr_localbase cf + r -> fr_localbase cf' = fr_localbase cf ->
+      exec_op ml gf cl cf w1 base s = VRet b s1 ->
+      rkString (cl_proto cl) (fr_localbase cf') r s1 = VRet (Values.VStr str) s1 /\
+      (op_of_code (opGetOpCode w) = Some OP_SELF ->
+       exec_op ml gf cl cf' w base s1 =
+       (vdo selfobj <- reg_get (fr_localbase cf + opGetArgB w);
+        vdo v <- getField ml MaxTableGetLoop selfobj (Values.VStr str);
+        vdo _ <- reg_set (fr_localbase cf + opGetArgA w) v;
+        vdo _ <- reg_set (fr_localbase cf + opGetArgA w + 1) selfobj; vret false) s1) /\
+      (op_of_code (opGetOpCode w) = Some OP_GETTABLEKS ->
+       exec_op ml gf cl cf' w base s1 =
+       (vdo o <- reg_get (fr_localbase cf + opGetArgB w);
+        vdo v <- getField ml MaxTableGetLoop o (Values.VStr str);
+        vdo _ <- reg_set (fr_localbase cf + opGetArgA w) v; vret false) s1).
+Proof. exact StrKeyVmx.regkey_reads_constant_lemma. Qed.
+Print Assumptions regkey_reads_constant.
 
 Theorem wf_exec_op_noob_all : forall ml gf,
   (forall b, noob (ml b)) -> (forall b, noob (gf b)) -> ml_keeps_caller_pc ml ->
